@@ -164,6 +164,12 @@ def run_text(ctx):
     for shift in range(1, 8):
         for w in rng.sample(pats, ctx.scale(120, 1500)) + [b"{" * 8, b"}" * 8, b"{}" * 4, b"}{" * 4]:
             plan.append((8, shift, w, [rng.choice(["slice", 16, 17, 64])]))
+    # near-miss filler bytes: one off the brace codes ('z' 0x7a, '|' 0x7c, '~' 0x7e) and their high-bit twins -- a SWAR
+    # zero-byte trick that is only exact up to the first match miscounts exactly these when they follow a brace
+    for fill in (0x7a, 0x7c, 0x7e, 0xfb, 0xfd):
+        for w in rng.sample(pats, ctx.scale(250, 2000)) + [b"}x" * 4, b"x}" * 4, b"{x" * 4, b"}}xx}}xx", b"{}x{}x{}"]:
+            w2 = bytes(fill if c == 0x78 else c for c in w)
+            plan.append((8, rng.randrange(0, 8), w2, ["slice"]))
     docs = []
     for s_open, shift, w, caps in plan:
         body0 = b"{" * s_open + b" " * shift + w
@@ -429,6 +435,19 @@ def run_binary(ctx):
             need = max(len(B.enc(t)) for t in unit)
             caps = [need, need + 1, 17, 64] if n <= 4097 else [need, 4096]
             bin_add(st, PRE, ub * n, "%d x %s skipped (%d bytes)" % (n, lab, len(ub) * n), caps, need=max(need, 3))
+    st.run()
+
+    # ---- the rgb marker id followed by something that is NOT a colour block, close to the end of the stream (a skip that
+    #      tries to read a whole colour must not mistake "fewer than 22 bytes left" for "more data needed")
+    st = Stream(ctx, "size_bin_rgbmarker", MODEL_BIN)
+    RGBM = B.le(B.RGB, 2)
+    u32 = lambda v: B.enc(("U32", v))
+    for lab, after in (("nothing", b""), ("{ 1 }", O + u32(1) + C), ("{ 1 2 }", O + u32(1) + u32(2) + C), ("{ }", O + C), ("an i32", B.enc(("I32", 7))),
+                       ("a string", B.enc(("Q", b"ab"))), ("{ 1 2 3 4 5 }", O + b"".join(u32(v) for v in range(1, 6)) + C), ("= value", B.enc(("EQ",)) + u32(3))):
+        for lead in (b"", u32(9), B.enc(("T", 77)) + B.enc(("EQ",)) + B.enc(("BOOL", True))):
+            for tail in ([("T", 9)], BTAIL, [("T", 9), ("Q", b"x" * 30)]):
+                bin_add(st, PRE, lead + RGBM + after, "rgb marker followed by %s (%d bytes of lead, tail of %d tokens)" % (lab, len(lead), len(tail)),
+                        [8, 17, 64], scheds=("-", "1,1,1,1,1,1,1,1,1,1,1,1,1,1,1,1,1,1,1,1,1,1,1,1,1,1,1,1,1,1,1,1,1,1,1,1,1,1,1,1"), tail=tail, need=6)
     st.run()
 
     # ---- string length
